@@ -46,6 +46,9 @@ type Client struct {
 	tracer trace.Tracer
 	meter  metric.Meter
 
+	// metricsMux guards queryMetrics of current query.
+	metricsMux sync.Mutex
+
 	// TCP Binary protocol version.
 	protocolVersion int
 
